@@ -215,6 +215,27 @@ Theorem C14_history_preserves_content : forall ta tx tj ops s,
 Proof. exact history_preserves_content. Qed.
 Print Assumptions C14_history_preserves_content.
 
+(* handles (Cas objects: the one the CAS was created as, those create_view / get_view return): each operation of a history
+   is called through some handle (hops = (handle, operation) pairs).  Whatever the handles: every handle keeps pointing at
+   the view it pointed at, the stores and documents are those of the history without handles (so they do not depend on the
+   handles used), and select_all / select through any handle h answer in every state what they answered before *)
+Theorem C14_history_handles_unchanged : forall ta tx tj hops hs,
+  Forall (fun x => hs_cur (fst x) = hs_cur hs) (hrun ta tx tj hops hs).
+Proof. exact hrun_handles. Qed.
+Print Assumptions C14_history_handles_unchanged.
+Theorem C14_history_handle_irrelevant : forall ta tx tj hops hops' hs hs',
+  map snd hops = map snd hops' -> hs_store hs = hs_store hs' ->
+  map (fun x => (hs_store (fst x), snd x)) (hrun ta tx tj hops hs) =
+  map (fun x => (hs_store (fst x), snd x)) (hrun ta tx tj hops' hs') /\
+  map (fun x => (hs_store (fst x), snd x)) (hrun ta tx tj hops hs) = run ta tx tj (map snd hops) (hs_store hs).
+Proof. intros. split; [apply hrun_handle_irrelevant; assumption|apply hrun_store]. Qed.
+Print Assumptions C14_history_handle_irrelevant.
+Theorem C14_history_handle_queries_unchanged : forall ta tx tj per_view h hops hs,
+  (forall l, In l (nth (N.to_nat (view_of hs h)) per_view []) -> exists i, id_of l (st_entries (hs_store hs)) = Some (Some i)) ->
+  Forall (fun x => hquery per_view (fst x) h = hquery per_view hs h) (hrun ta tx tj hops hs).
+Proof. exact history_handle_queries_unchanged. Qed.
+Print Assumptions C14_history_handle_queries_unchanged.
+
 (* reflection of the boolean premises counted by the harness *)
 Theorem C14_wf_stateb_spec : forall s, wf_stateb s = true <-> wf_state s.
 Proof. exact wf_stateb_spec. Qed.
@@ -283,6 +304,18 @@ Example C14_sofa_array_history :
   docs_of OJson [3; 3]%N [1; 2; 3]%N [1; 2; 3]%N [OXmi; OJson] s = [[(3%N, 4); (1%N, 2); (2%N, 3)]] /\
   docs_of OXmi [3; 3]%N [1; 2; 3]%N [1; 2; 3]%N [OJson; OXmi] s = [[(1%N, 2); (2%N, 3); (3%N, 4)]].
 Proof. cbv zeta. split; [apply wf_stateb_spec; reflexivity|repeat split; reflexivity]. Qed.
+
+(* two views (members [1] and [2;3]), four handles: 0 1 from building the CAS, 2 3 from get_view.  to_json through handle 1,
+   to_xmi through handle 3, typecheck through handle 0: the handles still point at views 0 1 0 1, select_all through handle 1
+   and through handle 3 answers [3;5] after each of them, through handle 2 (view 0) [2] *)
+Example C14_handles_history :
+  let hs := mkHs [0; 1; 0; 1]%N (mkSt [mkE 1 (Some 2); mkE 2 (Some 3); mkE 3 (Some 5)] 6) in
+  let r := hrun [] [1; 2; 3]%N [1; 2; 3]%N [(1%N, OJson); (3%N, OXmi); (0%N, OTypecheck)] hs in
+  map (fun x => hs_cur (fst x)) r = [[0; 1; 0; 1]%N; [0; 1; 0; 1]%N; [0; 1; 0; 1]%N] /\
+  map (fun x => hquery [[1]; [2; 3]]%N (fst x) 1%N) r = [[3; 5]; [3; 5]; [3; 5]] /\
+  map (fun x => hquery [[1]; [2; 3]]%N (fst x) 3%N) r = [[3; 5]; [3; 5]; [3; 5]] /\
+  hquery [[1]; [2; 3]]%N hs 2%N = [2].
+Proof. cbv zeta. repeat split; reflexivity. Qed.
 
 (* all ids present: three saves in mixed formats leave the state alone *)
 Example C14_saves_all_ids :
